@@ -7,7 +7,7 @@ EXTENDS MC_TxPipeline, Json
 Tr == ndJsonDeserialize("impl.ndjson")
 VARIABLES l, bad
 pvars == <<vars, l, bad>>
-MNote(n) == [k |-> n.k, t |-> n.t, safe |-> n.safe, unsafe |-> n.unsafe, canc |-> n.canc, proof |-> n.proof, depth |-> n.depth]
+MNote(n) == [k |-> n.k, t |-> n.t, safe |-> n.safe, unsafe |-> n.unsafe, canc |-> n.canc, proof |-> n.proof, depth |-> n.depth, pv |-> n.pv]
 LDl(i) == [j \in 1..Len(Tr[i].st.dl) |-> MNote(Tr[i].st.dl[j])]
 OutSeq == CHOOSE s \in [1..Cardinality(Outs) -> Outs] : \A a, b \in 1..Cardinality(Outs) : a < b => s[a] < s[b]
 
@@ -17,7 +17,7 @@ Load(i) == LET s == Tr[i].st IN
   /\ un' = [t \in Tx |-> s.un[t]] /\ st' = [t \in Tx |-> s.st[t]]
   /\ q' = s.q /\ c' = [IdleC EXCEPT !.pc = s.c.pc, !.t = s.c.t]
   /\ nblk' = s.nblk /\ clock' = s.clock /\ dl' = LDl(i) /\ arr' = s.arr /\ restarts' = s.restarts /\ checks' = s.checks
-  /\ aborted' = FALSE /\ act' = A(Tr[i].act.a, Tr[i].act.t, Tr[i].act.s)
+  /\ aborted' = FALSE /\ ready' = s.ready /\ orphd' = s.orphd /\ act' = A(Tr[i].act.a, Tr[i].act.t, Tr[i].act.s)
 
 \* formulas that need the Go-side facts or the previous line
 FactsP(i) == \A j \in 1..Len(Tr[i].st.dl) : Tr[i].st.dl[j].pv
